@@ -630,7 +630,7 @@ fn c03_tag(r: &mut Lcg) -> Option<AsnTag> {
     Some(AsnTag { environment: env, tag_class: class, id: [0u64, 1, 30, 31, 200, u64::MAX][r.next(6)] })
 }
 fn c03_type(r: &mut Lcg, depth: usize) -> ASN1Type {
-    let k = if depth == 0 { 5 + r.next(3) } else { r.next(8) };
+    let k = if depth == 0 { 5 + r.next(5) } else { r.next(10) };
     let members = |r: &mut Lcg| (0..r.next(4)).map(|i| SequenceOrSetMember { name: format!("m{i}"), tag: c03_tag(r), ty: c03_type(r, depth.saturating_sub(1)),
         optionality: if r.next(2) == 0 { Optionality::Required } else { Optionality::Optional }, is_recursive: r.next(2) == 0, constraints: vec![] }).collect::<Vec<_>>();
     match k {
@@ -642,6 +642,8 @@ fn c03_type(r: &mut Lcg, depth: usize) -> ASN1Type {
         4 => ASN1Type::SetOf(SequenceOrSetOf { constraints: vec![], element_tag: c03_tag(r), element_type: Box::new(c03_type(r, depth.saturating_sub(1))), is_recursive: false }),
         5 => ASN1Type::Boolean(Boolean { constraints: vec![] }),
         6 => ASN1Type::Null,
+        7 => ASN1Type::Any,
+        8 => ASN1Type::ObjectClassField(ObjectClassFieldType { class: "MY-CLASS".into(), field_path: vec![ObjectFieldIdentifier::SingleValue("&id".into())], constraints: vec![] }),
         _ => ASN1Type::ElsewhereDeclaredType(DeclarationElsewhere { parent: None, module: None, identifier: "Other".into(), constraints: vec![] }),
     }
 }
@@ -671,12 +673,14 @@ fn c03_apply_tagenv(rep: &mut Rep) {
         }
         // the same tree as a tagged type assignment
         let tag = c03_tag(&mut r);
-        let mut tld = ToplevelDefinition::Type(ToplevelTypeDefinition { comments: "c".into(), tag: tag.clone(), name: "T".into(), ty: ty.clone(), parameterization: None, module_header: None });
+        // (every other assignment is a parameterized template: its tags are resolved like any other's — the linker clones them into the instances)
+        let params = if n % 2 == 0 { None } else { Some(Parameterization { parameters: vec![ParameterizationArgument::from("T")] }) };
+        let mut tld = ToplevelDefinition::Type(ToplevelTypeDefinition { comments: "c".into(), tag: tag.clone(), name: "T".into(), ty: ty.clone(), parameterization: params.clone(), module_header: None });
         hook_apply_tagenv_tld(&mut tld, &env);
         if let ToplevelDefinition::Type(t) = &tld {
-            rep.check("C03.tld_apply.assignment_tag_resolved_with_class_and_number_kept", t.tag == c03_res(&tag, env), || format!("module default {env:?}; assignment tag {tag:?} -> {:?}", t.tag));
-            rep.check("C03.tld_apply.every_tag_below_resolved_at_every_depth", t.ty == want, || format!("module default {env:?}; type before: {ty:?}; after: {:?}; expected: {want:?}", t.ty));
-            rep.check("C03.tld_apply.nothing_else_changes", t.comments == "c" && t.name == "T" && t.parameterization.is_none(), || format!("{t:?}"));
+            rep.check("C03.tld_apply.assignment_tag_resolved_with_class_and_number_kept", t.tag == c03_res(&tag, env), || format!("module default {env:?}; parameterized={}; assignment tag {tag:?} -> {:?}", params.is_some(), t.tag));
+            rep.check("C03.tld_apply.every_tag_below_resolved_at_every_depth", t.ty == want, || format!("module default {env:?}; parameterized={}; type before: {ty:?}; after: {:?}; expected: {want:?}", params.is_some(), t.ty));
+            rep.check("C03.tld_apply.nothing_else_changes", t.comments == "c" && t.name == "T" && t.parameterization == params, || format!("{t:?}"));
         } else {
             rep.check("C03.tld_apply.nothing_else_changes", false, || "type assignment turned into another kind of definition".into());
         }
